@@ -135,6 +135,8 @@ void exec_op(int task, int idx, TaskCtx& ctx) {
   // is disabled here are judged by the refusal oracle only
   int64_t addressed = (c.op() == "sizes" || c.op() == "import") ? c.i("pb", 0) : c.i("param", 0);
   bool comparable = !(addressed >= 1 && addressed <= 12 && !((G.enabled_mask >> addressed) & 1));
+  if (G.extra_randomness && (c.op() == "sign" || c.op() == "nist" || c.op() == "verify"))
+    comparable = false; // signatures of this configuration are randomised by design: judged by the model fed the same bytes
   if (sh.ro.expect_digests && c.has("expect") && !o.skipped && o.clause.empty() && comparable) {
     if (hex64(o.digest) != c.s("expect"))
       o.fail(sh.plan->prop + ".differs_from_reference_build",
